@@ -109,11 +109,11 @@ NSign ==
          at == cur + skew
          strm == StreamFor(craft, at)
          prov == craft \notin DigestCrafts
-         dig == IF EntryGm(en) THEN <<>>
-                ELSE IF bad THEN Rnd(96, 32)
-                ELSE IF prov THEN S!Digest(EffUid(uid), pub, msg)
-                ELSE Crafted(craft, d, at)
-     IN /\ Sign(en, uid, msg, dig, prov, strm, skew)
+     IN \E dig \in {IF EntryGm(en) THEN <<>>                       \* (singleton \E: evaluate once, bind the value)
+                    ELSE IF bad THEN Rnd(96, 32)
+                    ELSE IF prov THEN S!Digest(EffUid(uid), pub, msg)
+                    ELSE Crafted(craft, d, at)} :
+        /\ Sign(en, uid, msg, dig, prov, strm, skew)
         /\ UNCHANGED <<key, route, ents>>
         /\ hist' = Append(hist, [op |-> "sign", entry |-> en, uid |-> Hx!FromBytes(uid),
                                  msg |-> IF EntryGm(en) \/ prov THEN Hx!FromBytes(msg) ELSE "",
